@@ -67,24 +67,35 @@ def sVersion := [118, 101, 114, 115, 105, 111, 110]
 def sAccess := [97, 99, 99, 101, 115, 115]
 def sEvent := [101, 118, 101, 110, 116]
 
-/-- The dispatch of `rpc.HandleRequest` on the method string (after the id check). -/
+def rpcKindOf (action : Bytes) : Option RpcKind :=
+  if action = sGet then some .get
+  else if action = sSubscribe then some .subscribe
+  else if action = sUnsubscribe then some .unsubscribe
+  else if action = sCall then some .call
+  else if action = sAuth then some .auth
+  else if action = sNew then some .new
+  else none
+
+/-- The dispatch of `rpc.HandleRequest` on the method string (after the id check).
+    (The Go code validates the resource id before it looks at an unknown action; every rejection
+    is the same `system.invalidRequest` reply, so the order is not observable.) -/
 def rpcDispatch (m : Bytes) : RpcDispatch :=
   match cutAt cDot m with
   | (_, none) => if m = sVersion then .version else .invalid
-  | (action, some rid) =>
-    let isCA := action = sCall || action = sAuth
-    match (if isCA then cutLast cDot rid else some (rid, [])) with
+  | (action, some rest) =>
+    match rpcKindOf action with
     | none => .invalid
-    | some (rid', method) =>
-      if isCA && !isValidRIDPart method then .invalid
-      else if !isValidRID rid' true then .invalid
-      else if action = sGet then .req .get rid' method
-      else if action = sSubscribe then .req .subscribe rid' method
-      else if action = sUnsubscribe then .req .unsubscribe rid' method
-      else if action = sCall then .req .call rid' method
-      else if action = sAuth then .req .auth rid' method
-      else if action = sNew then .req .new rid' method
-      else .invalid
+    | some .call =>
+      match cutLast cDot rest with
+      | none => .invalid
+      | some (rid, method) =>
+        if isValidRIDPart method && isValidRID rid true then .req .call rid method else .invalid
+    | some .auth =>
+      match cutLast cDot rest with
+      | none => .invalid
+      | some (rid, method) =>
+        if isValidRIDPart method && isValidRID rid true then .req .auth rid method else .invalid
+    | some k => if isValidRID rest true then .req k rest [] else .invalid
 
 /-- Subjects the gateway uses for a dispatched request of connection `cid`
     (`rescache.go: Access, Call, Auth, getSubscription; eventSubscription.go: addSubscriber`). -/
